@@ -521,6 +521,8 @@ impl Dom for Num {
             Float(2.5),
             Float(-2.5),
             Float(170.0),
+            Float(35.0),
+            Float(20.0),
             Float(1e19),
             Float(-0.3),
             Float(f64::MAX),
